@@ -23,7 +23,9 @@ pub fn main_loop(f: fn(&[&str]) -> String) {
         std::process::exit(2);
     }
     // panics are outcomes, not crashes: keep the default hook quiet
-    panic::set_hook(Box::new(|_| {}));
+    if std::env::var("VERIF_PANIC_VERBOSE").is_err() {
+        panic::set_hook(Box::new(|_| {}));
+    }
     let file = std::fs::File::open(&args[1]).expect("open casefile");
     let out = std::io::stdout();
     let mut out = std::io::BufWriter::new(out.lock());
